@@ -27,6 +27,8 @@ def run(ctx):
     ctx.decided.append('C02.k a seed parameter is parsed once per call, never handed raw to something inside a loop (independent draws stay independent for integer seeds)')
     simrules.copy_isolation_rule(ctx, 'C02.b')
     simrules.latest_record_rule(ctx, 'C02.l')
+    simrules.run_records_rule(ctx, 'C02.m')
+    ctx.decided.append('C02.m samplers assemble run() results from all records of the classical data store, not from the latest-record view')
     ctx.decided.append('C02.l a single record picked for a repeated key is the latest one, as classical controls read it')
     simrules.replay_isolation_rule(ctx, 'C02.c')
     simrules.measure_chain_rule(ctx, 'C02.e')
